@@ -34,6 +34,9 @@ type C04Case struct {
 	ChangelogFile string `json:"changelog_file,omitempty"`
 	// ScriptMask: with Scripts, the subset of the format's script slots that is configured (0 = all)
 	ScriptMask uint `json:"script_mask,omitempty"`
+	// Alts: ipk alternatives whose targets are files of the package itself and whose links lie in directories the
+	// contents do not create (metadata only: the payload is what the contents denote)
+	Alts bool `json:"ipk_alternatives,omitempty"`
 }
 
 func keyPath(env *engine.Env, name string) string { return filepath.Join(env.Verif, "keys", name) }
@@ -224,6 +227,14 @@ func init() {
 					}
 				}
 			}
+			// the rarely used ipk settings next to a payload that holds the alternatives' targets
+			for _, f := range Formats {
+				for _, l := range [][]model.Entry{{{Src: "bin/app", Dst: "/usr/bin/app"}}, {{Src: "bin/app", Dst: "/usr/bin/app"}, {Src: "etc/app.conf", Dst: "/etc/app.conf", Type: "config"}, {Dst: "/bin", Type: "dir"}}, nil} {
+					if !yield(C04Case{Class: "ipk-extras", Format: f, Setting: Setting{Name: "default"}, List: l, Alts: true}) {
+						return
+					}
+				}
+			}
 			// a changelog (deb ships it as a generated payload member below /usr/share/doc/<name>/, rpm in header tags)
 			for _, f := range []string{"deb", "rpm"} {
 				for _, l := range [][]model.Entry{nil, {ts[0]}, {{Src: "doc/README", Dst: "/usr/share/doc/pkg/README"}}, {{Dst: "/usr/share/doc", Type: "dir"}}, {{Src: "tree", Dst: "/usr/share/doc/pkg/examples", Type: "tree"}}} {
@@ -328,6 +339,13 @@ func c04Doc(env *engine.Env, c C04Case) (fixture.Doc, error) {
 		if c.ChangelogFile != "" {
 			d["changelog"] = t.P(c.ChangelogFile)
 		}
+	}
+	if c.Alts {
+		d["ipk"] = map[string]any{"alternatives": []any{
+			map[string]any{"priority": 200, "target": "/usr/bin/app", "link_name": "/bin/vi"},
+			map[string]any{"priority": 100, "target": "/usr/bin/app", "link_name": "/usr/local/bin/editor"},
+			map[string]any{"priority": 50, "target": "/bin/busybox", "link_name": "/bin/vi"},
+		}, "tags": []any{"t1"}, "abi_version": "1", "auto_installed": true, "essential": true, "fields": map[string]any{"X-A": "b"}}
 	}
 	return d, nil
 }
